@@ -145,6 +145,19 @@ def canonicalise(raw):
             continue
         fn_map[old] = new
         applied.append("fn %s -> %s" % (old, canon))
+    # a private anchor moved from the inherent impl into the impl of a private (extension) trait for the same type: named as the
+    # inherent method it was
+    for bid in list(bodies):
+        m = re.match(r"^<(crate::[\w:]+)<(.*)> as (crate::[\w:]+)(<.*>)?>::(\w+)$", bid)
+        if not m or m.group(5) not in ("parse_raw_token", "format_token", "verify_claims", "verify_ready_to_build", "set_validation_claim", "build_payload_from_claims"):
+            continue
+        if bodies[bid].get("vis") == "pub":
+            continue
+        new = "%s::<%s>::%s" % (m.group(1), m.group(2), m.group(5))
+        if new in bodies or any(v == new for v in fn_map.values()):
+            continue
+        fn_map[bid] = new
+        applied.append("fn %s -> inherent %s" % (bid, m.group(5)))
     fld = _field_roles(raw.get("adts", []))
     fld_map = {(a, o): n for a, o, n in fld}
     for a, o, n in fld:
